@@ -148,6 +148,8 @@ def _empty_tree():
 
 
 _defaults()
+# a fresh `{}` stored as the tree is the tree in which only the root dict exists
+world.EMPTY_DICT_AS_RECORD['SelTree'] = _empty_tree
 
 # ---- deepcopy of a tree: assumed ---------------------------------------------------------------
 c = Contract('ext::copy.deepcopy#tree', ['C08', 'C20'], kind='assumed')
@@ -166,7 +168,7 @@ def _attach_wf(name):
   c = REGISTRY['selector_map.py::SelectorMap.' + name]
   c.skip_proof = None
   c.assume_entry('representation_invariant', lambda x: WF(x.self_old),
-                 'class invariant of SelectorMap: established by the constructor, preserved by '
+                 'class invariant of SelectorMap: established by __init__ (proved), preserved by '
                  'clear/copy/__setitem__/pop (all proved); the private fields are touched only '
                  'by the class\'s own methods (AST obligation)')
   c.assume_entry('definition_of_the_trigger_marker', lambda x: fruit_definition(),
@@ -987,5 +989,19 @@ def _values_of_the_matches(x):
 
 c.ensure('values_of_exactly_the_matching_names_in_order', _values_of_the_matches)
 c.ensure('self_unchanged', lambda x: same_map(x.self_new, x.self_old))
+c.raises_only_listed = True
+register(c)
+
+
+# ==== __init__: the constructor establishes the representation invariant =============================
+c = _mk_abs('__init__', ('C08',))
+c.modifies_self = ['_selector_map', '_selector_tree']
+c.ensure('map_empty', lambda x: sym.forall([s_], z3.Not(M(x.self_new).dom[s_]),
+                                           patterns=[M(x.self_new).dom[s_]]))
+for _i, (_lbl, _) in enumerate(wf_parts(SelectorMap.fresh('dummy'))):
+  c.ensure('establishes_the_representation_invariant/' + _lbl,
+           (lambda i: lambda x: wf_parts(x.self_new)[i][1])(_i))
+c.assume_entry('definition_of_ancestor', lambda x: anc_definition(),
+               'definition of the spec function anc by structural recursion')
 c.raises_only_listed = True
 register(c)
